@@ -170,6 +170,7 @@ def mode1(ctx):
     m1 = Mode1(ctx, "MC_C04")
     m1.holds("fin, crash/stop of either stack, 2 steps", "C04_quick.cfg")
     m1.holds("fin, all disturbances, 2 steps", "C04_quick.cfg", sub_cfg("fin", "AllKinds"))
+    m1.holds("wrap (session counters past their first wrap), all disturbances, 2 steps", "C04_quick.cfg", sub_cfg("wrap", "AllKinds"))
     m1.holds("inf, 2 steps", "C04_quick.cfg", sub_cfg("inf", "InfKinds"))
     m1.holds("inf1, 2 steps", "C04_quick.cfg", sub_cfg("inf1", "InfKinds"))
     if not ctx.quick:
@@ -237,7 +238,7 @@ def check(ctx):
         sel = [t for t in traces if t["config"] == name][: ctx.pick(30, 250)]
         for t in sel:
             t["ticks"] = conform.ticks_of([e for e in t["ev"] if e.get("k") != "adv"])
-        res, _ = conform.run2({"Match": "C04_Match", "Cfg": "C04_" + {"wrap": "fin"}.get(name, name), "Sw": "AllOff"}, sel)
+        res, _ = conform.run2({"Match": "C04_Match", "Cfg": "C04_" + name, "Sw": "AllOff"}, sel)
         for t, r in zip(sel, res):
             total += 1
             acc += bool(r[0])
